@@ -121,11 +121,11 @@ def _gen_h(rng, m, n):
 
 def _cond(rng, hi=8.0):
     r = rng.random()
-    if r < 0.15:
+    if r < 0.2:
         return 1.0
-    if r < 0.6:
+    if r < 0.7:
         return float(10 ** rng.uniform(0, 3))
-    if r < 0.9:
+    if r < 0.92:
         return float(10 ** rng.uniform(3, hi))
     return float(10 ** hi)
 
@@ -170,7 +170,8 @@ def gen_sequence(rng, quick=True):
         q, qkind = np.zeros((n, n)), "zero"
     else:
         q = kf.rand_spd(rng, n, scale_p * float(10 ** rng.uniform(-6, 1)), _cond(rng))
-    ratio = float(10 ** rng.uniform(-1, 2)) if rng.random() < 0.8 else float(10 ** rng.uniform(2, 5))
+    rr_ = rng.random()
+    ratio = float(10 ** (rng.uniform(-2, 1) if rr_ < 0.7 else rng.uniform(1, 3) if rr_ < 0.9 else rng.uniform(3, 5)))
     x0 = rng.standard_normal(n) * math.sqrt(scale_p) * ratio
     n_steps = int(rng.integers(1, 21)) if not quick or rng.random() < 0.4 else int(rng.integers(1, 8))
     # truth + free-running reference covariance (only used to pick realistic magnitudes for R and y)
@@ -193,7 +194,7 @@ def gen_sequence(rng, quick=True):
                 h = _gen_h(rng, m, n)
                 ref = float(np.mean(np.diag(h @ pr @ h.T)))
                 ref = ref if ref > 0 and math.isfinite(ref) else 1.0
-                r = kf.rand_spd(rng, m, ref * float(10 ** rng.uniform(-3, 3)), _cond(rng))
+                r = kf.rand_spd(rng, m, ref * float(10 ** (rng.uniform(-2, 2) if rng.random() < 0.8 else rng.uniform(-4, 4))), _cond(rng))
                 y = h @ xt + np.linalg.cholesky(r) @ rng.standard_normal(m) * float(rng.choice([1.0, 1.0, 10.0]))
                 obs.append({"H": _L(h), "R": _L(r), "y": [float(v) for v in y]})
             hh = np.vstack([np.array(o["H"]) for o in obs])
@@ -360,7 +361,7 @@ def run_sequence(ctx, spec, stats=None):
             lam = kf.min_eig_sym(p_prev)
             singular = lam <= tp_last + 64 * n * EPS * max(_n2(p_prev), 1e-300)
             if not singular:
-                ctx.check(False, "cholesky-failed-on-pd-covariance", f"predict raised LinAlgError although est_p has min eigenvalue {lam:.3e} "
+                ctx.check(False, "linalg-error-on-regular-input", f"predict raised LinAlgError although est_p has min eigenvalue {lam:.3e} "
                           f"(norm {_n2(p_prev):.3e})", w, mon="filter_no_exception")
             stats["ended"] = "numerically-singular-posterior"
             ctx.count("sequences_ended_numerically_singular")
@@ -376,7 +377,7 @@ def run_sequence(ctx, spec, stats=None):
         decided = tol_p <= DECIDE_REL * max(_n2(pp_r), 1e-300) and tol_x <= DECIDE_REL * max(float(np.linalg.norm(xp_r)), math.sqrt(_n2(pp_r)))
         ex, ep = _mx(pred_x - xp_r), _mx(pred_p - pp_r)
         _track(ctx, "pred_x", ex, pb["x"])
-        _track(ctx, "pred_p", ep, pb["p"])
+        _track(ctx, "pred_p", max(ep - asym_prev, 0.0), pb["p"])
         if decided:
             stats["pred_decided"] += 1
             ctx.check(pred_x.shape == (n,) and ex <= tol_x, "pred-mean-ne-kf",
@@ -414,13 +415,18 @@ def run_sequence(ctx, spec, stats=None):
         do_rt = (k + n) % 3 == 0
         if do_rt:
             pres = f.getPredictionResult()
+        ppf = kf.sym(pred_p)
+        ev_s = np.linalg.eigvalsh(kf.sym(h @ (ppf if resample else pbar) @ h.T) + r)
+        s_singular = not np.all(np.isfinite(ev_s)) or ev_s[0] <= 1e-14 * ev_s[-1]
         try:
             _call(ctx, w, "update", f.update, obs)
         except np.linalg.LinAlgError:
             lam = kf.min_eig_sym(pred_p)
-            ctx.check(lam <= 64 * n * EPS * _n2(pred_p), "cholesky-failed-on-pd-covariance",
-                      f"step {k}: update raised LinAlgError, pred_p min eigenvalue {lam:.3e}", w, mon="filter_no_exception")
+            ctx.check(s_singular or lam <= tol_p + 64 * n * EPS * _n2(pred_p), "linalg-error-on-regular-input",
+                      f"step {k}: update raised LinAlgError although pred_p (min eigenvalue {lam:.3e}, norm {_n2(pred_p):.3e}) and the innovation "
+                      f"covariance (eigenvalues {ev_s[0]:.3e}..{ev_s[-1]:.3e}) are regular", w, mon="filter_no_exception")
             stats["ended"] = "numerically-singular-prior"
+            ctx.count("sequences_ended_numerically_singular")
             break
         except _FilterRaised:
             break
@@ -432,7 +438,10 @@ def run_sequence(ctx, spec, stats=None):
         if not shapes_ok:
             ctx.check(False, "posterior-shape", f"step {k}: shapes est_x{est_x.shape} est_p{est_p.shape} K{kk.shape} S{ss.shape} nu{nu.shape}", w, mon="post_identity")
             break
-        ppf = kf.sym(pred_p)
+        if s_singular:
+            stats["ended"] = "numerically-singular-innovation-covariance"
+            ctx.count("sequences_ended_numerically_singular")
+            break
         ref = kf.kf_update(pred_x, ppf, h, r, y) if resample else kf.noredraw_update(pred_x, ppf, pbar, h, r, y)
         ub = bnd.update(pb, h, r, pred_x, pred_p, ppf if resample else pbar, ref["k"], ref["s"], ref["c"], ref["nu"], float(np.linalg.norm(y)), resample)
         asym_pp = _mx(pred_p - pred_p.T)
@@ -462,10 +471,10 @@ def run_sequence(ctx, spec, stats=None):
         stale_txt = (" - the gain equals (F L_est)(H L_pred)^T S^-1, i.e. the cross covariance pairs the state residuals of the *propagated* "
                      "sigma points with measurement residuals of the *redrawn* ones") if stale else ""
         if not stale:
-            _track(ctx, "post_k", e_k, ub["k"])
-            _track(ctx, "post_s", e_s, ub["s"])
-            _track(ctx, "post_x", e_x, ub["x"])
-            _track(ctx, "post_p", e_p, ub["p"])
+            _track(ctx, "post_k", max(e_k - (t_k - C_TOL * ub["k"]), 0.0), ub["k"])
+            _track(ctx, "post_s", max(e_s - (t_s - C_TOL * ub["s"]), 0.0), ub["s"])
+            _track(ctx, "post_x", max(e_x - (t_x - C_TOL * ub["x"]), 0.0), ub["x"])
+            _track(ctx, "post_p", max(e_p - (t_p - C_TOL * ub["p"]), 0.0), ub["p"])
         if dec_post:
             stats["post_decided"] += 1
             ctx.check(e_s <= t_s, "innovation-cov-ne-" + ("kf" if resample else "noredraw"),
